@@ -14,6 +14,11 @@
     model configuration are computed from the same programs (`Progs.cfg`), and the C06 theorems
     are instantiated at that configuration.
 
+  * Bodies (`Gen.C06.bodies`): makeData's license expression and header constants, SendFlush's
+    branch on `UseQueue` (and `Send` = `SendFlush(…, false, …)`), the statements of Connect() and
+    Close() — each given a semantics and proved equal, for all inputs, to what the model does
+    (`effLicense`, the entry point by mode, `connectNew` under the guard `conn = none`, `conn := none`).
+
   If sendDirect stops taking the lock first, unlocks before Flush, closes on the wrong error path,
   if process() connects or sends outside the lock, if ApplyConfig re-dials outside it, if send()
   stops re-arming the deadline, if another goroutine starts taking from the queue, if makeData
@@ -58,9 +63,46 @@ theorem source_process_is_model (env : Env) (len : Nat) :
     (sendDirect; process()'s Connect and its sends; ApplyConfig's Close/Connect), deadline re-armed
     before every write.  (`procLocked` / `acLocked` fail on the code before fix-D70.) -/
 theorem source_cfg (q : Bool) :
-    Gen.C06.progs.cfg q =
-      { useQueue := q, sendLocked := true, bgLocked := true, procLocked := true, acLocked := true, rearm := true } := by
+    (Gen.C06.progs.cfg q).useQueue = q ∧ (Gen.C06.progs.cfg q).sendLocked = true ∧ (Gen.C06.progs.cfg q).bgLocked = true ∧
+    (Gen.C06.progs.cfg q).procLocked = true ∧ (Gen.C06.progs.cfg q).acLocked = true ∧ (Gen.C06.progs.cfg q).rearm = true := by
   cases q <;> decide
+
+/-- send()'s deferred recover() assigns the named result `err`: a recovered panic is reported, not
+    turned into "sent" (fails on the code before fix-D71) -/
+theorem source_recover_reports (q : Bool) : (Gen.C06.progs.cfg q).recoverReports = true := by
+  cases q <;> decide
+
+/-! ### the remaining bodies, interpreted -/
+
+/-- makeData hashes the per-send license when it is non-empty and the client's otherwise — for every
+    pair of licenses the transcribed expression evaluates to the model's `effLicense` -/
+theorem source_license_is_model (ov dflt : Bytes) : Gen.C06.bodies.license.eval ov dflt = effLicense ov dflt := by
+  by_cases h : ov = [] <;> simp [Gen.C06.bodies, LicExpr.eval, effLicense, h]
+
+/-- … the header constants are the ones `mkFrame` writes (byte 0 = 10, byte 1 = 0) -/
+theorem source_header_is_model (pcode hash : Int) (payload : Bytes) :
+    (mkFrame pcode hash payload).take 2 = [Gen.C06.bodies.headerSrc, Gen.C06.bodies.headerVer] := by
+  simp [mkFrame, Gen.C06.bodies]
+
+/-- SendFlush: in queue mode every call is a `Queue.Put` whose result decides nil / "Enqueue Failed",
+    in direct mode every call is `sendDirect` — whatever the `flush` argument; `Send` is
+    `SendFlush(…, false, …)`.  (The model's `enqueue`/`enqueueFail` need `useQueue = true`,
+    `lockSend` needs `useQueue = false`.) -/
+theorem source_entry_is_model (q f : Bool) :
+    interpEntry Gen.C06.bodies.sendFlush q f = some (if q then .enq else .direct) ∧
+    Gen.C06.bodies.sendIsSendFlushFalse = true := by
+  cases q <;> cases f <;> decide
+
+/-- Connect(): nothing when a connection is set; otherwise dial and, on success, assign a new connection
+    and a *new* buffered writer on it — the model's `connectNew` under the guard `conn = none` -/
+theorem source_connect_is_model (ok : Bool) (c w : Option Nat) (n : Nat) :
+    interpConn Gen.C06.bodies.connect ok (c, w, n) = modelConnect ok (c, w, n) := by
+  cases c <;> cases ok <;> rfl
+
+/-- Close(): `conn = nil`, the writer stays — the model's `close` / `extClose` / `reconfClose` -/
+theorem source_close_is_model (ok : Bool) (c w : Option Nat) (n : Nat) :
+    interpConn Gen.C06.bodies.close ok (c, w, n) = modelClose (c, w, n) := by
+  cases c <;> rfl
 
 /-- what `expand` replays for a direct send is the interpretation of the source -/
 theorem source_expand_direct (cfg : Cfg) (lenOf : Nat → Nat) (s : St) (t : Nat) (o : Outcome) :
@@ -76,9 +118,9 @@ theorem source_send_admitted (bytesOf : Nat → Bytes) (hne : ∀ sid, bytesOf s
     ∃ dial acts s', interpSender Gen.C06.progs.send Gen.C06.progs.sendDirect (Env.good dial) t s.nsid
         (bytesOf s.nsid).length = some acts ∧
       run (Gen.C06.progs.cfg false) bytesOf acts s = some s' ∧ (s.nsid, true) ∈ s'.results := by
-  have hc := source_cfg false
-  obtain ⟨dial, s', h1, h2⟩ := directActs_ok_admitted (Gen.C06.progs.cfg false) bytesOf (by rw [hc]) (by rw [hc])
-    (by rw [hc]) hne s hr t ht hidle hlock hclean
+  obtain ⟨hq, hl, _, _, _, hra⟩ := source_cfg false
+  obtain ⟨dial, s', h1, h2⟩ := directActs_ok_admitted (Gen.C06.progs.cfg false) bytesOf hl hra hq
+    hne s hr t ht hidle hlock hclean
   exact ⟨dial, _, s', source_sendDirect_is_model _ _ _ _, h1, h2⟩
 
 /-! ### the theorems of Props/C06 at the configuration read off the source -/
@@ -88,25 +130,41 @@ abbrev srcCfg (useQueue : Bool) : Cfg := Gen.C06.progs.cfg useQueue
 theorem source_frames_whole (q : Bool) (bytesOf : Nat → Bytes) (s : St)
     (hr : Reach (srcCfg q) bytesOf s) (c : Nat) :
     WholeThenTail bytesOf (s.log.get c) (s.delivered c) :=
-  C06.frames_whole_delivered _ bytesOf (by rw [srcCfg, source_cfg]) s hr c
+  C06.frames_whole_delivered _ bytesOf (source_cfg _).2.1 s hr c
 
 theorem source_order_once (q : Bool) (bytesOf : Nat → Bytes) (s : St)
     (hr : Reach (srcCfg q) bytesOf s) :
     (flatLogs s).Pairwise (· < ·) ∧ (flatLogs s).Sublist s.handed :=
-  let h := C06.order_once _ bytesOf (by rw [srcCfg, source_cfg]) s hr
+  let h := C06.order_once _ bytesOf (source_cfg _).2.1 s hr
   ⟨h.1, h.2.2.2⟩
 
 theorem source_healthy_no_loss (q : Bool) (bytesOf : Nat → Bytes) (acts : List Act) (s : St)
     (hh : Healthy acts) (h : run (srcCfg q) bytesOf acts init = some s) : NothingLost bytesOf s :=
-  C06.healthy_no_loss _ bytesOf (by rw [srcCfg, source_cfg]) (by rw [srcCfg, source_cfg]) (by rw [srcCfg, source_cfg])
-    (by rw [srcCfg, source_cfg]) acts s hh h
+  C06.healthy_no_loss _ bytesOf (source_cfg q).2.1 (source_cfg q).2.2.1 (source_cfg q).2.2.2.2.1
+    (source_cfg q).2.2.2.1 (source_recover_reports q) acts s hh h
+
+/-- fault histories at the configuration of the source: whole frames, at most once, in order -/
+theorem source_fault_histories (bytesOf : Nat → Bytes) (es : List HEv) (s : St)
+    (h : runHist (srcCfg false) bytesOf es init = some s) :
+    ∃ k : Nat → Nat,
+      (∀ c, ∃ tail, s.delivered c = concatF bytesOf ((s.log.get c).take (k c)) ++ tail ∧
+          (tail = [] ∨ ∃ sid, (s.log.get c)[k c]? = some sid ∧ tail <+: bytesOf sid ∧ tail ≠ bytesOf sid)) ∧
+      (wholeFrames s k).Pairwise (· < ·) ∧ (wholeFrames s k).Sublist s.handed :=
+  C06.fault_histories _ bytesOf (source_cfg false).2.1 es s h
+
+/-- Close() racing sends at the configuration of the source: nothing accepted is lost -/
+theorem source_close_race_no_loss (q : Bool) (bytesOf : Nat → Bytes) (pre post : List Act) (t : Nat) (s : St)
+    (hh : Healthy pre) (hh' : Healthy post) (h : run (srcCfg q) bytesOf (pre ++ .extClose t :: post) init = some s) :
+    NothingLost bytesOf s :=
+  C06.close_race_no_loss _ bytesOf (source_cfg q).2.1 (source_cfg q).2.2.1 (source_cfg q).2.2.2.2.1
+    (source_cfg q).2.2.2.1 (source_recover_reports q) pre post t s hh hh' h
 
 theorem source_queue_drains (bytesOf : Nat → Bytes) (hne : ∀ sid, bytesOf sid ≠ []) (s : St)
     (hr : Reach (srcCfg true) bytesOf s) (hp : s.pc 0 = .idle) (hlk : s.lock = none) :
     ∃ acts s', run (srcCfg true) bytesOf acts s = some s' ∧ (∀ a ∈ acts, a.isFault = false) ∧ s'.queue = [] ∧
       (∀ sid ∈ s.queue, ∃ w, Whole bytesOf s' w sid) := by
-  obtain ⟨acts, s', h1, h2, h3, _, h5, _⟩ := C06.queue_drains (srcCfg true) bytesOf (by rw [srcCfg, source_cfg])
-    (by rw [srcCfg, source_cfg]) (by rw [srcCfg, source_cfg]) hne s hr hp (fun _ => hlk)
+  obtain ⟨acts, s', h1, h2, h3, _, h5, _⟩ := C06.queue_drains (srcCfg true) bytesOf (source_cfg true).2.1
+    (source_cfg true).2.2.2.2.2 (source_cfg true).1 hne s hr hp (fun _ => hlk)
   exact ⟨acts, s', h1, h2, h3, h5⟩
 
 end C06Gen
